@@ -372,6 +372,7 @@ func runCheck(repo, verif, prop, tier string) int {
 		}
 	}
 	for _, s := range res.standins {
+		var unlisted []standinViolation
 		for _, v := range s.Violations {
 			matched := false
 			for _, k := range known {
@@ -381,8 +382,18 @@ func runCheck(repo, verif, prop, tier string) int {
 				}
 			}
 			if !matched {
-				violations = append(violations, &Obligation{Name: s.Name, Kind: "bounded", Status: "counterexample", Clause: v.Text, Model: v.Input, Output: v.Output})
+				unlisted = append(unlisted, v)
 			}
+		}
+		if len(unlisted) > 0 {
+			// one violation per stand-in; its replay file lists every failing input that was printed
+			var inputs, outs []string
+			for _, v := range unlisted {
+				inputs = append(inputs, v.Input+" :: "+v.Text)
+				outs = append(outs, v.Output)
+			}
+			violations = append(violations, &Obligation{Name: s.Name, Kind: "bounded", Status: "counterexample", Clause: unlisted[0].Text,
+				Model: strings.Join(inputs, "\n"), Output: strings.Join(outs, "\n")})
 		}
 		if s.Broken != "" {
 			fmt.Fprintf(os.Stderr, "govc: bounded stand-in %s could not run: %s\n", s.Name, s.Broken)
